@@ -209,7 +209,14 @@ Inductive op :=
     (* [TraceCallee(addr) if addr > 0;] [TraceError if err;] entry.Exit() at clock `now` *)
 | Fire (a : Z)                       (* the recycler's timer for node a fires: recycle(a) *)
 | Connected (now : Z) (a : Z) (rt : Z)   (* retryer: probe of node a succeeded: onConnected(a, rt) *)
-| Disconnected (a : Z).              (* retryer: probe of node a failed: onDisconnected(a) *)
+| Disconnected (a : Z)               (* retryer: probe of node a failed: onDisconnected(a) *)
+| Reload.
+    (* LoadRules / LoadRuleOfResource for the resource with a rule whose circuit-breaker part, active
+       flag and percentage are unchanged (an identical rule, or one that differs in RecoveryIntervalMs /
+       RecycleIntervalS / MaxRecoveryAttempts / the check function): every node breaker is reused
+       (BuildResourceCircuitBreaker keeps the breaker of an equal rule), the recycler and the retryer of
+       the resource - and the timers they have armed - stay. Nothing changes. Reloads that change a
+       breaker field rebuild the node breakers and are outside this model (C13 / C14). *)
 
 Inductive out :=
 | OLists (filter half : list Z)      (* entry.Context().FilterNodes() / HalfOpenNodes() *)
@@ -263,6 +270,7 @@ Definition step (r : orule) (s : state) (o : op) : state * out :=
       (mkS (nodes s) (rstatus s)
            (aset a (u32 (match alookup a (rcounts s) with Some c => c | None => 0 end + 1)) (rcounts s))
            (live s) (pool s), ONone)
+  | Reload => (s, ONone)
   end.
 
 Fixpoint run (r : orule) (s : state) (ops : list op) : state * list out :=
